@@ -378,16 +378,19 @@ def observe(run: Run, thorough: bool, box: dict):
 
 
 def compare(run: Run, box: dict):
-    """Coq side: the model evaluated on the recorded constructions (needs theories/Api/SettingsTie.vo, built by `prove`)."""
+    """Coq side: the model evaluated on the recorded constructions (theories/Api/SettingsExec.vo; also builds the source-level tie SettingsTie.vo)."""
     from harness.common import make
     cases, metas = box.get("cases", []), box.get("metas", [])
-    ok, out = make(["theories/Api/SettingsTie.vo"], jobs=6)
+    ok, out = make(["theories/Api/SettingsExec.vo"], jobs=6)
     if not ok:
+        run.broken("build:SettingsExec", out[-1500:])
+    ok_tie, out = make(["theories/Api/SettingsTie.vo"], jobs=6)
+    if not ok_tie:
         run.broken("build:SettingsTie", out[-1500:])
     if not cases:
         run.broken("settings:no-case", "no construction was recorded", kind="broken-correspondence")
     if ok and cases:
-        header = ("From Coq Require Import List ZArith String.\nFrom Leaspy Require Import Api.Settings Api.SettingsTie.\n"
+        header = ("From Coq Require Import List ZArith String.\nFrom Leaspy Require Import Api.Settings Api.SettingsExec.\n"
                   "Local Open Scope string_scope.")
         bad = run.vm_bad_indices("settings", header, "ctor_case", cases, "ctor_check", shard=60)
         if bad is None:
@@ -408,3 +411,28 @@ def settings_tie(run: Run, thorough: bool, translated: bool):
     box = {}
     observe(run, thorough, box)
     compare(run, box)
+
+
+def replay_one(run: Run, inp: dict) -> int:
+    """Re-run one recorded (name, kwargs) on the current tree: python-side oracles + the Coq comparison."""
+    from harness.common import use_impl
+    use_impl()
+    name, kw = inp["name"], copy.deepcopy(inp["kwargs"])
+    print(f"replaying AlgorithmSettings({name!r}, **{kw})")
+    if inp.get("call"):
+        before = len(run._fails)
+        run_probe(run, lambda sig, what, i, e=None, o=None: run.fail(sig, what, i, e, o))
+        bad = len(run._fails) > before
+    else:
+        defaults = json.loads((SRC / "algo" / "data" / f"default_{name}.json").read_text())
+        fails = []
+        with warnings.catch_warnings(), contextlib.redirect_stdout(io.StringIO()):
+            warnings.simplefilter("ignore")
+            text, meta = one_case(name, kw, defaults, lambda sig, what, i, e=None, o=None: fails.append(sig))
+        box = dict(cases=[text] if text else [], metas=[meta] if text else [])
+        before = len(run._fails)
+        compare(run, box)
+        bad = bool(fails) or len(run._fails) > before
+        print("python-side signatures:", sorted(set(fails)) or "none", "| observed:", json.dumps(meta.get("observed"), default=str)[:600])
+    print("REPLAY", "FAILS" if bad else "passes")
+    return 1 if bad else 0
